@@ -71,14 +71,23 @@ pub struct C14Checker {
     /// per round: the sources of the two expressions that were set successfully
     srcs: HashMap<String, (Option<String>, Option<String>)>,
     tainted: bool,
+    /// which getter is called at the start of a round, BEFORE the expression is set again (0 overview, 1 braille, 2 speech):
+    /// one choice per trace (derived from its origin), so that the rule sets other than the speech rules are the first to
+    /// meet a repaired or switched-back configuration in a third of the runs each
+    pre_getter: usize,
+    /// Language in force when the current expression was set (the as-is getter is only meaningful under the same Language)
+    set_under: Option<String>,
+    /// per round: (source of the expression that was current, getter name, its result)
+    pre: HashMap<String, (String, String, Res)>,
 }
 
 /// expression with separator-bearing numbers used in the second part of every probe round
 const NUMBERS_EXPR: usize = 31;
 
 impl C14Checker {
-    pub fn new(_trace: &Trace, _session: usize) -> C14Checker {
-        C14Checker { rounds: HashMap::new(), outstanding: vec![], last_fault: "none".into(), last_repair: "none".into(), ever_faulted: false, clean: HashMap::new(), srcs: HashMap::new(), tainted: false }
+    pub fn new(trace: &Trace, _session: usize) -> C14Checker {
+        let pre_getter = (crate::rng::fnv_str(&trace.origin) % 3) as usize;
+        C14Checker { rounds: HashMap::new(), outstanding: vec![], last_fault: "none".into(), last_repair: "none".into(), ever_faulted: false, clean: HashMap::new(), srcs: HashMap::new(), tainted: false, pre_getter, set_under: None, pre: HashMap::new() }
     }
 
     /// O2: the call that consumed faulted bytes of a MUST-ERR fault must fail and name the file
@@ -147,6 +156,17 @@ impl C14Checker {
             Op::Cmd("MoveNext".into()),
         ];
         let cfg_key = ["Language", "SpeechStyle", "BrailleCode"].iter().map(|n| s.call(&Op::GetPref(n.to_string())).short()).collect::<Vec<_>>().join(",");
+        let language = cfg_key.split(',').next().unwrap_or("").to_string();
+        // one getter on the expression that is still current from the previous round, before anything else of this round:
+        // after a repair or a switch back the first call may be ANY getter, not the set_mathml / speech that the round
+        // starts with (the overview, navigation and intent rule sets share tables with the speech rules)
+        self.pre.remove(tag);
+        if let (Some(src0), true) = (s.cur_src.clone(), self.set_under.as_deref() == Some(language.as_str())) {
+            let op = [Op::Overview, Op::Braille(IdRef::Empty), Op::Speech][self.pre_getter].clone();
+            let res = s.call(&op);
+            self.check_o2(s, &op, &res);
+            self.pre.insert(tag.to_string(), (src0, op.name().to_string(), norm(&res)));
+        }
         let mut results = Vec::new();
         let mut src1 = None;
         for op in ops {
@@ -154,6 +174,7 @@ impl C14Checker {
             self.check_o2(s, &op, &res);
             if matches!(op, Op::SetMathml(_)) && res.is_ok() {
                 src1 = s.cur_src.clone();
+                self.set_under = Some(language.clone());
             }
             results.push((op.name().to_string(), norm(&res)));
         }
@@ -165,6 +186,7 @@ impl C14Checker {
             self.check_o2(s, &op, &res);
             if matches!(op, Op::SetMathml(_)) && res.is_ok() {
                 src2 = s.cur_src.clone();
+                self.set_under = Some(language.clone());
             }
             results.push((format!("{} (numbers)", op.name()), norm(&res)));
         }
@@ -257,6 +279,25 @@ impl C14Checker {
         if !r.setup_errors.is_empty() {
             s.note(format!("reference set-up errors: {:?}", r.setup_errors));
         }
+        // the getter that was called before the round set its expression, against a fresh session holding that expression
+        if let Some((src0, name, got)) = self.pre.get(tag).cloned() {
+            let r0 = reference_outputs(s, &fs, rules_dir, &prefs, &src0);
+            let exp = norm(match name.as_str() {
+                "get_overview_text" => &r0.overview,
+                "get_braille" => &r0.braille,
+                _ => &r0.speech,
+            });
+            if got != exp && !(got.is_err() && exp.is_err()) {
+                s.violation_g(
+                    "recovery-incomplete",
+                    format!("{} as the first call differs from fresh session after {} of {}", name, self.last_repair, self.last_fault),
+                    format!("{} as the first call differs from fresh session after {} of {}", name, self.last_repair, self.last_fault.split(' ').last().unwrap_or("")),
+                    format!("the first call after the repair / switch back, on the expression that was still current\nsession: {}\nfresh session: {}", got.short(), exp.short()),
+                );
+                return;
+            }
+            s.probe("first_getter_equals_fresh_session");
+        }
         let expected = [("set_mathml", norm(&r.set_mathml)), ("get_spoken_text", norm(&r.speech)), ("get_braille", norm(&r.braille)), ("get_overview_text", norm(&r.overview))];
         for (i, (name, exp)) in expected.iter().enumerate() {
             if let Some((_, got)) = round.get(i) {
@@ -321,6 +362,9 @@ impl C14Checker {
 impl Checker for C14Checker {
     fn after_call(&mut self, s: &mut Sess, op: &Op, res: &Res) {
         self.check_o2(s, op, res);
+        if matches!(op, Op::SetMathml(_)) && res.is_ok() {
+            self.set_under = None; // set outside a probe round: the Language in force is not tracked
+        }
     }
 
     fn after_env(&mut self, s: &mut Sess, ev: &EnvEvent, outcome: &str) {
